@@ -75,6 +75,7 @@ type c16Ident struct {
 	flips    [][]byte
 	cand     bool // state.IsCeremonyCandidate(real identity read back from the state)
 	pos      int  // rank among the candidates of its shard in address order, -1 if not a candidate
+	badPub   bool // the identity's PubKey in the state is empty / unparsable (genesis-style identity)
 }
 
 type c16ShardPlan struct {
@@ -249,6 +250,27 @@ func c16Materialize(rng *verifutil.Rng, l *c16Layout) {
 			if len(id.flips) > 0 {
 				id.flipPub = c16FlipKey("verif-c16-flip-pub", id.addr)
 				id.flipPriv = c16FlipKey("verif-c16-flip-priv", id.addr)
+			}
+		}
+		// every third layout: one or two identities whose stored public key is empty or garbage
+		// (identities that never sent an activation tx). They cannot receive keys; everybody else
+		// still must.
+		if rng.Chance(1, 3) && len(l.idents) > 2 {
+			for n, x := range rng.Perm(len(l.idents))[:rng.Range(1, 2)] {
+				id := l.idents[x]
+				id.badPub = true
+				k := rng.Intn(3)
+				if k == 0 && n > 0 {
+					k = 1 // the monitors identify recipients by their stored key bytes: at most one empty key
+				}
+				switch k {
+				case 0:
+					id.pub = nil
+				case 1:
+					id.pub = rng.Bytes(rng.Range(8, 40))
+				default:
+					id.pub = append([]byte{0x04}, rng.Bytes(64)...) // right shape, not on the curve
+				}
 			}
 		}
 	}
@@ -1254,6 +1276,12 @@ func (r *c16Runner) checkKeys(l *c16Layout, w *c16World, vc *ValidationCeremony,
 		if !id.cand {
 			continue
 		}
+		if id.badPub {
+			if _, err := crypto.UnmarshalPubkey(id.pub); err != nil {
+				rep.Count("keys_recipient_without_valid_pubkey", 1)
+				continue // nobody can encrypt for it
+			}
+		}
 		size := sizeOf[id.shard]
 		who := fmt.Sprintf("candidate %s (shard %d pos %d)", id.addr.Hex(), id.shard, id.pos)
 		for si, list := range [][][]byte{o.short[i], o.long[i]} {
@@ -1342,6 +1370,10 @@ func (r *c16Runner) checkKeys(l *c16Layout, w *c16World, vc *ValidationCeremony,
 		}
 		for _, k := range idxs {
 			enc := w.keysPool.GetEncryptedPrivateFlipKey(k, au.addr)
+			if _, perr := crypto.UnmarshalPubkey(o.recip[a][k]); perr != nil && len(enc) == 0 {
+				rep.Count("keys_empty_entry_for_invalid_pubkey", 1)
+				continue
+			}
 			if len(enc) == 0 {
 				r.violation(l, "keys:entry-missing", "", fmt.Sprintf("package of author %s has no entry %d of %d", au.addr.Hex(), k, n))
 				continue
